@@ -5,9 +5,9 @@
 (*   <<"T", json(action), json(out), json(state')>>   one per transition     *)
 EXTENDS ConnSys, Json, TLCExt
 St == [ep |-> ep, net |-> net, sub |-> sub, snv |-> snv, scl |-> scl, del |-> del, ready |-> ready,
-       answered |-> answered, cnt |-> cnt, stable |-> stable]
+       answered |-> answered, bnd |-> bnd, orph |-> orph, cnt |-> cnt, stable |-> stable]
 StP == [ep |-> ep', net |-> net', sub |-> sub', snv |-> snv', scl |-> scl', del |-> del', ready |-> ready',
-        answered |-> answered', cnt |-> cnt', stable |-> stable']
+        answered |-> answered', bnd |-> bnd', orph |-> orph', cnt |-> cnt', stable |-> stable']
 Export ==
   /\ IF TLCGet(1) # St THEN PrintT(<<"S", ToJson(St)>>) /\ TLCSet(1, St) ELSE TRUE
   /\ PrintT(<<"T", ToJson(act'), ToJson(out' @@ [nt |-> [e \in E |-> NeedsTick(ep'[e])]]), ToJson(StP)>>)
